@@ -74,7 +74,7 @@ func (s *Netceptor) listen(ctx context.Context, service string, tlscfg *tls.Conf
 			profileVerify := tlscfg.VerifyPeerCertificate
 			tlscfg.GetConfigForClient = func(hi *tls.ClientHelloInfo) (*tls.Config, error) {
 				clientTLSCfg := tlscfg.Clone()
-				remoteNode := strings.Split(hi.Conn.RemoteAddr().String(), ":")[0]
+				remoteNode := nodeOfRemoteAddr(hi.Conn.RemoteAddr())
 				nameVerify := ReceptorVerifyFunc(tlscfg, [][]byte{}, remoteNode, ExpectedHostnameTypeReceptor, VerifyClient, s.Logger)
 				clientTLSCfg.VerifyPeerCertificate = func(rawCerts [][]byte, verifiedChains [][]*x509.Certificate) error {
 					if profileVerify != nil {
@@ -146,6 +146,16 @@ func (s *Netceptor) listen(ctx context.Context, service string, tlscfg *tls.Conf
 	go li.acceptLoop(ctx)
 
 	return li, nil
+}
+
+// nodeOfRemoteAddr returns the node ID a packet source address claims. Node IDs may contain ':',
+// so the address is not split as text when it is a netceptor address.
+func nodeOfRemoteAddr(addr net.Addr) string {
+	if ncAddr, ok := addr.(Addr); ok {
+		return ncAddr.node
+	}
+
+	return strings.Split(addr.String(), ":")[0]
 }
 
 func (s *Netceptor) tracer(ctx context.Context, p logging.Perspective, connID quic.ConnectionID) *logging.ConnectionTracer {
